@@ -116,6 +116,13 @@ EditReasons(r) ==
                                   ELSE {"lib-edit-is-not-the-configured-expansion"}))
           : k \in 1..Len(r.lib) }
     \cup (IF OrderedDisjoint(lib) THEN {} ELSE {"lib-edits-overlap"})
+    \* r.raw: the edit of every match of the non-reentrant traversal, in its order.  Node::replace_all returns the edits of
+    \* that list that do not start before the end of the one returned before them (Replace!FilterOverlap): edits that merely
+    \* touch are both returned, and without expansion every match has its edit
+    \cup (LET raw == [k \in 1..Len(r.raw) |-> AsEdit(r.raw[k])]  want == FilterOverlap(raw) IN
+          (IF [k \in 1..Len(lib) |-> <<lib[k].pos, lib[k].del>>] = [k \in 1..Len(want) |-> <<want[k].pos, want[k].del>>] THEN {}
+           ELSE {"lib-edits-are-not-the-disjoint-selection-of-the-matches"})
+          \cup (IF r.expanded \/ Len(lib) = Len(raw) THEN {} ELSE {"lib-match-without-edit"}))
     \cup UNION { (IF InBounds(len, cli[k]) THEN {} ELSE {"cli-out-of-bounds"}) : k \in 1..Len(cli) }
     \cup (IF r.codes[2] # 0 /\ r.codes[2] # 1 THEN {"update-all-failed"}
           ELSE LET acc == FilterOverlap(cli) IN
